@@ -40,6 +40,7 @@ JudgeOpaque(e) ==  \* R / X / C / A: bytes -> value -> bytes
 JudgeNom(e) ==
     IF e.out # "ok" THEN "C18:nomval-failed"
     ELSE IF Len(e.bytes) # e.w \/ ~IsZero(e.bytes) THEN "C18:nomval-not-all-zero"
+    ELSE IF Len(e.again) # e.w \/ ~IsZero(e.again) THEN "C18:nomval-not-all-zero-after-a-caller-modified-an-earlier-result"
     ELSE "ok"
 
 JudgeCk(e) ==
